@@ -67,6 +67,11 @@ var props = map[string]propSpec{
 		Rule: "rapid draws float64/float32 bit patterns (uniform words, subnormals, 2^k and 2^k(1+2^-52) for every binary exponent, small mantissas, decimal-looking values, top binades, specials) for FromFloat64/32 against the exact binary value rounded nearest-even, plus the Float64/Float32 round trip; Decimals dense in the float range, built next to exact float values and to midpoints between adjacent floats (approached from both sides to the 34th digit), exactly representable values and range edges, for Float64/Float32 against the two neighbouring floats computed with big.Rat; Float at precisions 1..400 with nil and pre-loaded receivers (2^(1-prec) bound, correct rounding from 114 bits); FromFloat of big.Floats with mantissas up to 600 bits and binary exponents up to +-21500 (2e-33 relative, neighbours at the range edges). A sweep checks FromFloat32(f).Float32()==f on a strided sample (quick) or all 2^32 patterns (thorough, sub-check marked exhaustive). Non-trivial = inexact conversion; distinct = distinct argument bits.",
 		Assumptions: append([]string{"math/big.Rat.Float64/Float32 return the nearest float and an exactness flag (used only to find the two neighbouring floats)"}, commonAssumptions...),
 	},
+	"C05": {
+		QuickShards: 8, ThoroughShards: 16,
+		Rule: "rapid draws (i) literals from the documented grammar: sign, digit runs of 1..450 digits (thorough: occasionally 32k-70k digits or leading-zero runs of that length), ties and near-ties after the 34th/35th digit, the 38/39-digit accumulation cut-off, '.' at every position, '_' between digits, exponents with sign/leading zeros/separators steered to the subnormal, flush and overflow windows and to huge magnitudes, NaN/Inf/Infinity in random case; each is parsed under all 6 DefaultRoundingMode values by Parse and UnmarshalText (MustParse and fmt.Sscan under the default mode) and compared with an independent numeral evaluator + RoundX, incl. the ErrRange/Inf rule; (ii) invalid strings: random bytes, random strings over the literal alphabet, a fixed list of near-misses, and 1-2 byte mutations of valid literals, classified by an independent recogniser: must give ErrSyntax (MustParse panics). Non-trivial = literal with more than 35 significant digits, or in a clamp window, or with separators, or invalid; distinct = distinct string.",
+		Assumptions: append([]string{"signed NaN and doubled underscores are not settled by the statement and are excluded from both the valid and the invalid set (counted as unclaimed-form)", "below 1e-6177 both a signed zero and the directed-mode rounding are accepted"}, commonAssumptions...),
+	},
 	"C01": {
 		QuickShards: 8, ThoroughShards: 16,
 		Rule: "rapid draws operand pairs (independent; exponent gap -45..45; tie/near-tie constructor at the 34/35-digit boundary; near-cancellation across cohorts; swallowed operand up to gap 12287; zeros; overflow edge) and add/sub; every pair is evaluated under all 6 modes and under all 6 DefaultRoundingMode values against the exact integer sum rounded by ref.RoundX. Non-trivial = the exact sum is not representable (rounding decides) or the operands cancel exactly; distinct = distinct (x bits, y bits, op).",
